@@ -31,7 +31,17 @@ impl Term for f64 {
         TermKind::Literal
     }
     fn lexical_form(&self) -> Option<MownStr> {
-        Some(MownStr::from(format!("{}", self)))
+        // NB: Rust displays non-finite values as "inf", "-inf" and "NaN",
+        // while the lexical space of xsd:double only contains "INF", "-INF" and "NaN"
+        Some(if self.is_finite() {
+            MownStr::from(format!("{}", self))
+        } else if self.is_nan() {
+            MownStr::from("NaN")
+        } else if self.is_sign_positive() {
+            MownStr::from("INF")
+        } else {
+            MownStr::from("-INF")
+        })
     }
     fn datatype(&self) -> Option<IriRef<MownStr>> {
         Some(IriRef::new_unchecked(MownStr::from_ref(&XSD_DOUBLE)))
